@@ -215,7 +215,13 @@ def select_rule(P, chk):
         hay = prov(x, t["args"][0])
         needle = q.chains(x, t["args"][1])
         okh = bool(hay) and all(r.kind in ("param", "capture") and (r.name.endswith("fp") or r.name == "fp") for r in hay)
-        okn = bool(needle) and all(any(short(n) == "from_slash" for n in cn) or (r.kind == "param" and "path" in r.fields) for cn, r in needle)
+        plain = {"from_slash", "to_str", "deref", "as_path", "as_ref", "as_str", "borrow", "as_os_str", "to_string_lossy", "display"}
+        okn = bool(needle) and all((any(short(n) == "from_slash" for n in cn) or (r.kind == "param" and "path" in r.fields))
+                                   and set(short(n) for n in cn) <= plain for cn, r in needle)
+        if needle and not okn:
+            extra = sorted(set(short(n) for cn, r in needle for n in cn) - plain)
+            if extra:
+                detail_needle = "the document path is rewritten by %s before the substring test" % extra
         # Some(..) only on the true edge
         somes = [bb2 for bb2, v, rv in q.ok_err_assignments(x) if v == "Some"]
         oks = bool(somes) and all(any(ct is t and lab is True for cn, lab, ct in q.guard_calls(x, s)) for s in somes)
